@@ -163,3 +163,29 @@ pub fn exefile(toks: &[&str]) -> Option<String> {
         Err(_) => "panic".to_string(),
     })
 }
+
+/// `omap <n> (a <k> <v> | u <k> <v> | r <k> | R)*`: the real `OrderedMap<String, u64>`; answer `iter=[k:v,...] len=<n>` or `panic`
+pub fn omap(toks: &[&str]) -> Option<String> {
+    let mut t = Toks::new(toks);
+    let n = t.nat()?;
+    let mut ops: Vec<(char, String, u64)> = vec![];
+    for _ in 0..n {
+        match t.tok()? {
+            "a" => { let k = t.tok()?.to_string(); let v = t.nat()? as u64; ops.push(('a', k, v)); }
+            "u" => { let k = t.tok()?.to_string(); let v = t.nat()? as u64; ops.push(('u', k, v)); }
+            "r" => { let k = t.tok()?.to_string(); ops.push(('r', k, 0)); }
+            "R" => ops.push(('R', String::new(), 0)),
+            _ => return None,
+        }
+    }
+    if !t.done() { return None; }
+    let r = std::panic::catch_unwind(move || {
+        let mut m: crate::ordered_map::OrderedMap<String, u64> = crate::ordered_map::OrderedMap::new();
+        for (op, k, v) in ops {
+            match op { 'a' => m.add(k, v), 'u' => m.update(&k, v), 'r' => m.remove(&k), _ => m.reverse_order() }
+        }
+        let items: Vec<String> = m.iter().map(|(k, v)| format!("{}:{}", k, v)).collect();
+        format!("iter=[{}] len={}", items.join(","), m.len())
+    });
+    Some(r.unwrap_or_else(|_| "panic".to_string()))
+}
